@@ -441,8 +441,10 @@ Definition intended_update (asn : N) (ibgp : bool) (nh : list N) (a : adv) : msg
 Definition intended_withdraw (ps : list prefix) : msg :=
   MUpdate {| u_wdr := map intended_nlri ps; u_attrs := []; u_nlri := [] |}.
 
-(* what a conforming reader must understand from an OPEN (RFC 6793: the
-   4-octet capability carries the real AS number) *)
+(* what a reader understands from an OPEN (RFC 6793: the 4-octet capability
+   carries the real AS number).  NOTE: [cap_is_mp] is fitted to the code, not to
+   RFC 4760: it requires the reserved octet of the MP capability to be 0 (the Go
+   code compares {reserved, SAFI} as one uint16); a conforming reader ignores it. *)
 Definition cap_as4 (c : cap) : option N :=
   if (c_code c =? 65) && (len (c_val c) =? 4) then Some (be (c_val c) 0) else None.
 Definition cap_is_mp (afi safi : N) (c : cap) : bool :=
